@@ -45,3 +45,13 @@ Fixpoint unconv_value (w : wire) : aval :=
   | WBool b => AvBool b | WStr s => AvStr s | WInt z => AvInt z | WDouble f => AvFloat f
   | WArray l => AvSeq (map unconv_value l)
   end.
+
+(* ---------- text (push/__init__.py __text): protobuf strings carry valid unicode only ---------- *)
+Definition is_surr (c : Z) : bool := (55296 <=? c) && (c <=? 57343).
+Definition hexd (n : Z) : Z := if n <? 10 then 48 + n else 87 + n.
+Definition esc_surr (c : Z) : str := [92; 117; hexd (c / 4096); hexd ((c / 256) mod 16); hexd ((c / 16) mod 16); hexd (c mod 16)].
+Definition valid_text (s : str) : bool := negb (existsb is_surr s).
+Definition sanitize (s : str) : str :=
+  if valid_text s then s else flat_map (fun c => if is_surr c then esc_surr c else [c]) s.
+Record text_case := { tx_in : str; tx_obs : str }.
+Definition check_text_case (c : text_case) : bool := str_eqb (sanitize (tx_in c)) (tx_obs c).
